@@ -244,6 +244,8 @@ def match_known(known, pid, name):
 
 if __name__ == "__main__":
     rc = main()
+    from govc.ring import kill_pool
+    kill_pool()
     sys.stdout.flush()
     sys.stderr.flush()
     os._exit(rc)
